@@ -466,3 +466,74 @@ fn c20_o6_provisional_needs_head_of_same_revision() {
     std::mem::forget(local);
     std::mem::forget(zalsa);
 }
+
+// ---------------------------------------------------------------------------------------------
+// C20-O7: promotion of a provisional result, with the cycle head's ingredient replaced by `MockHeadFn`
+// (arbitrary provisional status). Decides what probe c20_o6 (real ingredient + memo table) could not.
+// ---------------------------------------------------------------------------------------------
+
+fn head_zalsa(kind: u8, head_it: u8, head_cc: u8, head_v: usize) -> (Zalsa, [usize; 3], crate::DatabaseKeyIndex) {
+    use crate::function::verif::MockHeadFn;
+    let head_fn_index = crate::zalsa::IngredientIndex::new(0);
+    let mock = MockHeadFn {
+        index: head_fn_index,
+        kind,
+        iteration: crate::cycle::verif::stamp(head_it, head_cc),
+        verified_at: Revision::from(head_v),
+        heads: CycleHeads::default(),
+        types: crate::sync::Arc::new(crate::table::memo::MemoTableTypes::default()),
+    };
+    let ingredients: Vec<Box<dyn crate::ingredient::Ingredient>> = vec![Box::new(mock)];
+    let (zalsa, revs) = zalsa_with(ingredients);
+    (zalsa, revs, key(0, 3, 0))
+}
+
+// @verif prop=C20 obl=O7 tier=quick bounds="one provisional participant memo with ONE cycle head; the head's function ingredient is the environment stub MockHeadFn answering provisional_status with an arbitrary status: none/provisional/poisoned/final x iteration 0..=200 x cancellation byte x verified_at in 1..=now; participant: verified_at in 1..=now, recorded head iteration 0..=200, cancellation byte symbolic"
+// @+ encodes="validate_provisional, Zalsa::lookup_ingredient, Ingredient::as_function (dyn dispatch to the stub), FunctionIngredientRef::provisional_status, CycleHeads::iter, AtomicIterationStamp::load, QueryRevisions::verified_final"
+/// C20-O7: a provisional result is promoted to final only if its cycle head is final, was verified in the *same*
+/// revision as the result, and finished in exactly the iteration (and cancellation epoch) the result was computed from.
+/// In particular a result abandoned by a cancelled fixpoint in an older revision is never promoted by a head finalized later.
+#[kani::proof]
+#[kani::unwind(4)]
+#[kani::stub(real_catch_unwind, stub_catch_unwind)]
+fn c20_o7_promotion_needs_final_head_of_same_revision() {
+    let kind: u8 = kani::any();
+    kani::assume(kind <= 3);
+    let head_it: u8 = kani::any();
+    kani::assume(head_it <= 200);
+    let head_cc: u8 = kani::any();
+    let head_v: usize = kani::any();
+    let part_v: usize = kani::any();
+    // `validate_provisional` never reads the current revision: the two stamps are arbitrary valid revisions
+    kani::assume(1 <= head_v && head_v <= REV_MAX);
+    kani::assume(1 <= part_v && part_v <= REV_MAX);
+    let (zalsa, _revs, head_key) = head_zalsa(kind, head_it, head_cc, head_v);
+    let seen_it: u8 = kani::any();
+    kani::assume(seen_it <= 200);
+    let seen_cc: u8 = kani::any();
+    let seen_stamp = crate::cycle::verif::stamp(seen_it, seen_cc);
+    let me = key(9, 0, 0);
+    let mut part_rev = revisions_of(1, Durability::LOW, origin_of(OriginShape::Derived), false);
+    part_rev.set_cycle_heads(CycleHeads::initial(head_key, seen_stamp), seen_stamp);
+    let part = header_of(part_v, part_rev);
+    let ok = validate_provisional(&zalsa, me, &part.revisions, Revision::from(part_v), part.cycle_heads());
+    if ok {
+        assert!(kind == 3, "C20/C01: a provisional result was promoted although its cycle head is not final");
+        assert!(head_v == part_v, "C20: a provisional result was promoted by a cycle head finalized in a different revision");
+        assert!(head_it == seen_it && head_cc == seen_cc, "C20/C01: a provisional result was promoted by a cycle head that finished in a different iteration or cancellation epoch");
+        assert!(!part.may_be_provisional(), "C01: promoted provisional memo not marked final");
+    } else {
+        assert!(part.may_be_provisional(), "C01: rejected provisional memo was marked final");
+        // completeness (C03 direction): the exact match is promoted
+        assert!(!(kind == 3 && head_v == part_v && head_it == seen_it && head_cc == seen_cc), "C03: matching final head did not promote the provisional result");
+    }
+    kani::cover!(ok);
+    kani::cover!(kind == 3 && head_v > part_v && head_it == seen_it && head_cc == seen_cc);
+    kani::cover!(kind == 3 && head_v < part_v && head_it == seen_it && head_cc == seen_cc);
+    kani::cover!(kind == 3 && head_v == part_v && head_it != seen_it);
+    kani::cover!(kind == 1);
+    kani::cover!(kind == 2);
+    kani::cover!(kind == 0);
+    std::mem::forget(part);
+    std::mem::forget(zalsa);
+}
